@@ -142,11 +142,11 @@ var jsPool = []string{"", "(", "{", "}", "var", "a +", "1", "'x'", "null", "unde
 	"new Date(0)", "Symbol('x')", "throw 1", "throw new Error('x')", "JSON.parse('{')", "JSON.parse(_node)", "_node", "a.b.c", "a", "this", "eval('1')", "(() => 1)()", "`x${1}`",
 	"let a = 1; a", "var JSON = 1; JSON", "Math = 0", "Object.freeze(this); 1", "delete this.JSON; 1", "x = 5", "new Array(5)", "9007199254740993", "1e400", "-0", "'\\ud800'",
 	"new Proxy({}, {})", "new Map()", "new Set([1])", "new Uint8Array(3)", "Promise.resolve(1)", "/re/g", "BigInt ? 1 : 2", "(function f(n){return n?f(n-1):0})(100)", "[1,2,3].map(function(x){return x*2})",
-	"({toString:function(){throw 1}})", "({valueOf:function(){return {}}})", "Object.create(null)", "var o={}; o.o=o; o", "var a=[]; a[0]=a; a"}
+	"({toString:function(){throw 1}})", "({valueOf:function(){return {}}})", "Object.create(null)"}
 
-// jsPoolOdd: scripts whose completion value runs user code (an accessor) while it is exported to
-// Go -- outside the guard js_export_total (known finding).
-var jsPoolOdd = []string{"({get a(){throw 1}})", "({get a(){throw new Error('x')}})", "new Proxy({}, {ownKeys:function(){throw 1}})", "[{get a(){throw 1}}]",
+// jsPoolOdd: scripts whose completion value is cyclic, or runs user code (an accessor) while it is
+// exported to Go -- outside the guard js_export_total (known findings N6, N7).
+var jsPoolOdd = []string{"var o={}; o.o=o; o", "var a=[]; a[0]=a; a", "({get a(){throw 1}})", "({get a(){throw new Error('x')}})", "new Proxy({}, {ownKeys:function(){throw 1}})", "[{get a(){throw 1}}]",
 	"new Proxy({}, {get:function(){throw 1}, ownKeys:function(){return ['a']}, getOwnPropertyDescriptor:function(){return {value:1,enumerable:true,configurable:true}}})"}
 
 func pick(r *vh.Rng, xs []string) string { return xs[r.Pick(len(xs))] }
